@@ -25,6 +25,7 @@ type c07Kind struct {
 	wraps     string // "sentinel" | "cause" | "notexist" | ""
 	tail      string // emitted after the construct (e.g. a closer for a block with bad arguments)
 	unclosed  bool   // drop every end tag after the construct
+	body      string // emitted right after the construct in every case (content of an unclosed block)
 }
 
 var c07Kinds = []c07Kind{
@@ -43,6 +44,9 @@ var c07Kinds = []c07Kind{
 	{name: "strict-undefined", src: "{{ no_such_variable }}", strict: true},
 	{name: "unterminated-block", src: "{% if true %}", parseTime: true, unclosed: true},
 	{name: "unterminated-for", src: "{% for i in (1..2) %}", parseTime: true, unclosed: true},
+	{name: "unterminated-block-with-closed-inner-blocks", src: "{% if true %}", parseTime: true, unclosed: true,
+		body: "\nx{% for i in (1..1) %}y{% endfor %}\n{% comment %}c{% endcomment %}{% raw %}r{% endraw %}{% case 1 %}{% when 1 %}{% endcase %}"},
+	{name: "unterminated-capture-with-closed-inner-block", src: "{% capture c %}", parseTime: true, unclosed: true, body: "{% unless false %}u{% endunless %}\n"},
 	{name: "stray-end-tag", src: "{% endraw %}", parseTime: true},
 	{name: "stray-clause-tag", src: "{% when 1 %}", parseTime: true},
 	{name: "include-missing", src: `{% include "c07_no_such_file.html" %}`, wraps: "notexist"},
@@ -119,6 +123,7 @@ func c07Families(tier string) []explore.Family {
 			sb.WriteString(lays[d])
 			offset := sb.Len()
 			sb.WriteString(kind.src)
+			sb.WriteString(kind.body)
 			sb.WriteString("\ntail\n")
 			if !kind.unclosed {
 				sb.WriteString(kind.tail)
@@ -262,7 +267,7 @@ func init() {
 	explore.Register(&explore.Prop{
 		ID:    "C07",
 		Level: "exploration",
-		Rule: "20 kinds of failing construct (syntax error in object / tag arguments, unknown tag, unknown filter, filter's own error in object/assign/if, division by zero, type error, strict undefined variable, unterminated blocks, stray end/clause tags, include of a missing file / non-string, bad cycle) placed in the taken body of every nesting path of depth 0..2 (quick) / 0..3 (thorough) over 7 enclosing forms, " +
+		Rule: "22 kinds of failing construct (syntax error in object / tag arguments, unknown tag, unknown filter, filter's own error in object/assign/if, division by zero, type error, strict undefined variable, unterminated blocks, stray end/clause tags, include of a missing file / non-string, bad cycle) placed in the taken body of every nesting path of depth 0..2 (quick) / 0..3 (thorough) over 7 enclosing forms, " +
 			"with 0/1/2 newlines + filler independently before every opener and before the construct, with and without a newline inside every opener tag, parsed with path in {none, dir/t.html} x start line in {0,1,7}, through ParseTemplateLocation+Render and ParseAndRender; " +
 			"class = (kind, fails at parse time); distinct_nontrivial counts distinct classes",
 		Assumptions: []string{
